@@ -281,6 +281,8 @@ class Sim:
                                    (q[0] == "<cond>" and any(m[:len(p)] == p for m in q[2])))
                 if n.get("op") == "=" and "[]" not in p:
                     rhs = fn.expand(n["rhs"])
+                    while rhs is not None and rhs.get("k") == "asg" and rhs.get("op") == "=":
+                        rhs = fn.expand(rhs["rhs"])      # a = b = K
                     cv = const_of(rhs) if rhs is not None and rhs.get("k") in ("int", "enum") else None
                     if cv is not None:
                         facts = facts.set(p, ("Z",) if cv == 0 else ("EQ", cv))
@@ -516,11 +518,17 @@ class _FactProbe(Client):
     def node(self, st, n, sim):
         if sim.cur == self.pos and (not self.seen or self.seen[-1] is not sim.facts):
             self.seen.append(sim.facts)
+            self.prev.append(sim.trace[-2] if sim.trace and len(sim.trace) > 1 else None)
         return st
 
 
-def facts_at(fn, pos):
-    """Fact stores (one per explored path state) when execution reaches pos."""
+def facts_at(fn, pos, with_prev=False):
+    """Fact stores (one per explored path state) when execution reaches pos
+    (before the element at pos is executed); with_prev also returns the block
+    each state came from."""
     cl = _FactProbe(pos)
+    cl.prev = []
     Sim(fn, cl, max_states=20000).run()
+    if with_prev:
+        return list(zip(cl.seen, cl.prev))
     return cl.seen
